@@ -266,6 +266,8 @@ def run(ctx):
     mods = ["SharkVerif.Props.C01"]
     if os.path.exists(os.path.join(core.LEAN, "SharkVerif", "Gen", "RemoraRules.lean")):
         mods.append("SharkVerif.Gen.RemoraRules")
+    if os.path.exists(os.path.join(core.LEAN, "SharkVerif", "Gen", "RemoraOpt.lean")):
+        mods.append("SharkVerif.Gen.RemoraOpt")
     ok = ctx.prove(mods)
     ctx.cov["rewrite_rule_lemmas_proved"] = sum(1 for n in ctx.obligations if ".rule_" in n) if ok else 0
     if not ctx.quick:
